@@ -1,4 +1,6 @@
-(* C01, kernel level (ckernels vertical, docs/ckernels.md) - PARTIAL.
+(* C01, kernel level (ckernels vertical, docs/ckernels.md).
+   FULLY PROVED: sha256_single (C01_kernel_sha256_single, all inputs).  PARTIAL (names ending in
+   _partial): sha1_single, sha512_single, md5_single - known answers through the translated code.
    The base block functions sha256_single, sha1_single, sha512_single, md5_single of the
    <alg>_mb/<alg>_ctx_base.c files are translated from the current source on every run
    (tr/ckernel.py -> Gen/CKernelGen.v) and run by the interpreter of Model/CKernel.v.
@@ -13,9 +15,22 @@
    and edge blocks at every run (checks/ckernels.py). *)
 From Coq Require Import NArith List.
 From ISAL Require Import Base.Words Base.ListUtil Spec.MD Spec.SHA1 Spec.SHA256 Spec.SHA512 Spec.MD5
-  Model.CKernel Gen.CKernelGen.
+  Model.CKernel Gen.CKernelGen Proofs.CKSymSha256.
 Import ListNotations.
 Local Open Scope N_scope.
+
+(* sha256_single, translated from the current sha256_mb/sha256_ctx_base.c, equals the FIPS 180-4
+   compression function for EVERY chaining value and EVERY 64-byte block, whatever the
+   uninitialised w[] array held (junk); the block is seen through uint32_t loads (little endian).
+   Re-established on every regenerated kernel by one vm_compute of the verified symbolic
+   equivalence checker (Proofs/CKSymSha256.v sha256_check_true). *)
+Theorem C01_kernel_sha256_single : forall (h block junk : list N),
+  length h = 8%nat -> Forall (fun x => x < 2 ^ 32) h ->
+  length block = 64%nat -> Forall (fun x => x < 2 ^ 8) block ->
+  exists F0, forall fuel, (F0 <= fuel)%nat ->
+    c_sha256_single fuel (le_words 4 block) h junk = Some (sha256_compress h block).
+Proof. exact ck_sha256_single_eq. Qed.
+Print Assumptions C01_kernel_sha256_single.
 
 Local Fixpoint pat_from (n : nat) (b : N) : list N :=
   match n with O => [] | S m => b :: pat_from m ((b + 7) mod 256) end.
@@ -43,11 +58,11 @@ Local Definition agree5 (h blk : list N) : bool :=
   | Some r => if list_eq_dec N.eq_dec r (md5_compress h blk) then true else false | None => false end.
 
 (* FIPS 180-4 "abc" through the translated sha256_single = the standard digest *)
-Example C01_kernel_sha256_abc_partial :
+Example C01_kernel_sha256_abc :
   c_sha256_single big_fuel (le_words 4 abc64) sha256_iv [] =
   Some [0xba7816bf; 0x8f01cfea; 0x414140de; 0x5dae2223; 0xb00361a3; 0x96177a9c; 0xb410ff61; 0xf20015ad].
 Proof. vm_compute. reflexivity. Qed.
-Print Assumptions C01_kernel_sha256_abc_partial.
+Print Assumptions C01_kernel_sha256_abc.
 
 Example C01_kernel_sha1_abc_partial :
   c_sha1_single big_fuel (le_words 4 abc64) sha1_iv [7; 7] =
